@@ -116,7 +116,7 @@ class C14(Prop):
             "result still equals its deep copy, cwd listing unchanged; plus cross-interpreter batches under 4 PYTHONHASHSEED "
             "values; non-trivial = >= 2 run calls on one object with a different output mode in between, on a text with a "
             "comment or >= 2 statements; distinct = SHA-1 of the case")
-    budgets = {"quick": 1200, "thorough": 40000}
+    budgets = {"quick": 1200, "thorough": 25000}
     assumptions = [
         "reference = a forked process in which exactly one parser object is constructed and run once (sdpv/isolated.py)",
         "histories are generated as whole values (operation lists) so that Hypothesis shrinks them as one; the cross-interpreter part "
